@@ -166,8 +166,11 @@ func (c spdxSniff) sniff(data []byte) Format {
 		state.Type = "text/spdx"
 		state.Encoding = "text"
 
+		// The version is the whole value of the tag, not a substring of it
+		// ("SPDX-2.30" is not version 2.3).
+		tagValue := strings.TrimSpace(stringValue[strings.Index(stringValue, "SPDXVersion:")+len("SPDXVersion:"):])
 		for _, ver := range []string{"2.2", "2.3"} {
-			if strings.Contains(stringValue, fmt.Sprintf("SPDX-%s", ver)) {
+			if tagValue == fmt.Sprintf("SPDX-%s", ver) {
 				state.Version = ver
 				return state.Format()
 			}
